@@ -133,11 +133,24 @@ func c05RealBinary(r *ev.Result, base string) {
 func c11RealBinary(r *ev.Result, base string) {
 	/* A run may end by the operator leaving, or by the process being
 	killed: what was delivered before is in the file either way. */
-	c11RealSession(r, base, "ctrl-d")
-	c11RealSession(r, base, "sigkill")
+	c11RealSession(r, base, "ctrl-d", 1)
+	c11RealSession(r, base, "sigkill", 1)
+	/* A log file that already holds an earlier run is continued, not
+	written over: two runs on one file. */
+	{
+		dir, _ := os.MkdirTemp(base, "log2-")
+		defer os.RemoveAll(dir)
+		c11LogDir = dir
+		c11RealSession(r, base, "ctrl-d", 1)
+		c11RealSession(r, base, "ctrl-d", 2)
+		c11LogDir = ""
+	}
 }
 
-func c11RealSession(r *ev.Result, base, endBy string) {
+// c11LogDir, if set, is where the next sessions keep their (shared) log file.
+var c11LogDir string
+
+func c11RealSession(r *ev.Result, base, endBy string, nth int) {
 	v := func(sig, what string) {
 		if "ctrl-d" != endBy {
 			sig += "/" + endBy
@@ -148,6 +161,12 @@ func c11RealSession(r *ev.Result, base, endBy string) {
 	dir, _ := os.MkdirTemp(base, "log-")
 	defer os.RemoveAll(dir)
 	logf := filepath.Join(dir, "session.json")
+	if "" != c11LogDir {
+		logf = filepath.Join(c11LogDir, "session.json")
+	}
+	if nth > 1 {
+		endBy = fmt.Sprintf("%s (run %d on one log file)", endBy, nth)
+	}
 	p, addr, err := startReal(dir, "-listen-address", "127.0.0.1:0", "-tls-certificate-cache", filepath.Join(dir, "c.txtar"), "-log", logf)
 	if nil != err {
 		ev.Broken("%s", err)
@@ -219,7 +238,7 @@ func c11RealSession(r *ev.Result, base, endBy string) {
 	co.ReadResponse("POST")
 	ci.Close()
 	co.Close()
-	if "sigkill" == endBy {
+	if strings.HasPrefix(endBy, "sigkill") {
 		p.Cmd.Process.Signal(syscall.SIGKILL)
 		p.Wait(30 * time.Second)
 	} else if st := stopReal(p); 0 != st {
@@ -261,8 +280,10 @@ func c11RealSession(r *ev.Result, base, endBy string) {
 		}
 	}
 	var wantIn []string
-	for _, l := range lines {
-		wantIn = append(wantIn, l+"\n")
+	for k := 0; k < nth; k++ {
+		for _, l := range lines {
+			wantIn = append(wantIn, l+"\n")
+		}
 	}
 	if fmt.Sprint(inData) != fmt.Sprint(wantIn) {
 		v("input-records", fmt.Sprintf("input records %q, lines delivered %q", inData, wantIn))
@@ -270,8 +291,10 @@ func c11RealSession(r *ev.Result, base, endBy string) {
 	/* Output records carry the JSON image of the chunks (the transport may
 	have split or merged them; the concatenation decides). */
 	var wantOut bytes.Buffer
-	for _, c := range chunks {
-		wantOut.WriteString(c)
+	for k := 0; k < nth; k++ {
+		for _, c := range chunks {
+			wantOut.WriteString(c)
+		}
 	}
 	enc, _ := json.Marshal(wantOut.String())
 	var wantOutS string
@@ -280,12 +303,12 @@ func c11RealSession(r *ev.Result, base, endBy string) {
 		v("output-records", fmt.Sprintf("output records %q, chunks shown %q", outData, wantOutS))
 	}
 	for _, k := range []string{"New connection/input/INFO", "New connection/output/INFO", "Disconnected/input/INFO", "Disconnected/output/INFO"} {
-		if 1 != count[k] {
-			v("connection-records", fmt.Sprintf("%d records %q in the log (want 1); all: %v", count[k], k, count))
+		if nth != count[k] {
+			v("connection-records", fmt.Sprintf("%d records %q in the log (want %d); all: %v", count[k], k, nth, count))
 		}
 	}
-	if 1 != count["Incorrect key/output/ERROR"] {
-		v("refusal-record", fmt.Sprintf("%d error records for the refused stream (want 1 'Incorrect key'); all: %v", count["Incorrect key/output/ERROR"], count))
+	if nth != count["Incorrect key/output/ERROR"] {
+		v("refusal-record", fmt.Sprintf("%d error records for the refused stream (want %d 'Incorrect key'); all: %v", count["Incorrect key/output/ERROR"], nth, count))
 	}
 	r.Add(1)
 	r.AddDistinct(1)
